@@ -126,6 +126,14 @@ EvalE(e, row, dev) ==
                          a == EvalE(e[4], row, dev)
                          b == EvalE(e[5], row, dev)
                      IN IF e[2] = "if_else" THEN IfElse(c, a, b) ELSE Where(c, a, b)
+    \* text methods; text values are abstract codes, results of concat / trimstr are symbolic (realised by the harness)
+    [] e[1] = "cat" -> LET x == EvalE(e[2], row, dev) y == EvalE(e[3], row, dev) IN
+                       IF "pandas_concat_null_as_text" \in dev
+                         THEN <<"cat", IF IsNull(x) THEN "nan" ELSE x, IF IsNull(y) THEN "nan" ELSE y>>
+                         ELSE IF IsNull(x) \/ IsNull(y) THEN NULL ELSE <<"cat", x, y>>
+    [] e[1] = "trim" -> LET x == EvalE(e[2], row, dev) IN IF IsNull(x) THEN NULL ELSE <<"trim", x, e[3], e[4]>>
+    \* mapv({"s0": 1, "s1": 2}, 0): unmapped and missing values take the default
+    [] e[1] = "mapv" -> LET x == EvalE(e[2], row, dev) IN IF IsNull(x) THEN 0 ELSE IF x = 0 THEN 1 ELSE IF x = 1 THEN 2 ELSE 0
     [] e[1] = "in" -> LET x == EvalE(e[2], row, dev)
                       IN IF IsNull(x) THEN (IF "null_cmp_false" \in dev THEN 0 ELSE NULL)
                          ELSE B(\E i \in 1..Len(e[3]) : e[3][i] = x)
@@ -147,6 +155,7 @@ DefinedE(e, row) ==
     [] e[1] = "t" -> /\ DefinedE(e[3], row) /\ DefinedE(e[4], row) /\ DefinedE(e[5], row)
                      /\ ~IsInf(EvalE(e[4], row, {})) /\ ~IsInf(EvalE(e[5], row, {}))
     [] e[1] = "in" -> DefinedE(e[2], row) /\ ~IsInf(EvalE(e[2], row, {}))
+    [] e[1] \in {"cat", "trim", "mapv"} -> TRUE
 
 RECURSIVE ColsOfE(_)
 ColsOfE(e) ==
@@ -157,6 +166,8 @@ ColsOfE(e) ==
     [] e[1] = "b" -> ColsOfE(e[3]) \cup ColsOfE(e[4])
     [] e[1] = "t" -> ColsOfE(e[3]) \cup ColsOfE(e[4]) \cup ColsOfE(e[5])
     [] e[1] = "in" -> ColsOfE(e[2])
+    [] e[1] = "cat" -> ColsOfE(e[2]) \cup ColsOfE(e[3])
+    [] e[1] \in {"trim", "mapv"} -> ColsOfE(e[2])
 
 \* does evaluating e on row compare a missing operand?  (applicability predicate of D14)
 RECURSIVE NullCmpIn(_, _)
@@ -169,6 +180,7 @@ NullCmpIn(e, row) ==
                      \/ (e[2] \in CmpOps /\ (IsNull(EvalE(e[3], row, {})) \/ IsNull(EvalE(e[4], row, {}))))
     [] e[1] = "t" -> NullCmpIn(e[3], row) \/ NullCmpIn(e[4], row) \/ NullCmpIn(e[5], row)
     [] e[1] = "in" -> NullCmpIn(e[2], row) \/ IsNull(EvalE(e[2], row, {}))
+    [] e[1] \in {"cat", "trim", "mapv"} -> FALSE
 
 (***************************************************************************)
 (* Laws of the reference (checked by TLC over a value universe V)           *)
